@@ -95,6 +95,7 @@ def feasible_with(st, refs):
     try:
         for lin, lo, hi in refs:
             s2.constrain(lin, lo, hi)
+        s2.retighten_products()
     except Infeasible:
         return None
     return s2
@@ -212,6 +213,13 @@ def join_states(sa, sb):
                 s.fb[k] = (lo2, hi2, n2)
             else:
                 s.fb[k] = (lo, hi, nan)
+        for k, v in sb.prodl.items():
+            s.prodl.setdefault(k, v)
+        for k, v in sb.cmod.items():
+            if k not in s.cmod:
+                s.cmod = dict(s.cmod)
+                s.cmod[k] = v
+        s.retighten_products()
     except Infeasible:
         return None
     return s
@@ -326,7 +334,7 @@ def holds(st, ret, expect):
         if kind == "lin":
             if ret.lin.key() == expect[1].key():
                 return True, ""
-            a, z = st.rng_lin_int(ret.lin.sub(expect[1]))
+            a, z = st.rng_tight(ret.lin.sub(expect[1]))
             return (a == z == 0), "result %s differs from %s by [%d,%d]" % (ret.lin, expect[1], a, z)
         if kind == "diff":
             _, scale, L, dlo, dhi = expect
